@@ -23,6 +23,9 @@ TRUSTED = [
     "allocation failure, stack overflow and foreign GuestMemory/ReadVolatile implementations are out of scope",
     "reviewed-edge table tables/c07_edges.py (each line carries its reason)",
     "rustc nightly MIR construction (overflow-checks=on, debug-assertions=on)",
+    "arithmetic axioms of rules/bounds.py: unsigned interval arithmetic, monotonicity of min/max/&/>>/%//, range items, "
+    "binary_search / partition_point results <= len, slices of non-zero-sized elements span <= isize::MAX bytes, page size >= 1; "
+    "widening casts looked through, narrowing casts opaque",
 ]
 
 MAY_PANIC = [
